@@ -112,9 +112,9 @@ class Coverage:
 
     def average_coverage(self) -> float:
         """:returns: Average coverage of the gene."""
-        return sum(self.total(pos) for pos in self._coverage) / float(
-            len(self._coverage) + 0.1
-        )
+        # Only the gene (and pseudogene) regions count: reads next to the locus say nothing
+        locus = [pos for pos in self._coverage if self.gene.region_at(pos)]
+        return sum(self.total(pos) for pos in locus) / float(len(locus) + 0.1)
 
     def dump(self, out=None):
         """Pretty-print the coverage data."""
